@@ -46,14 +46,20 @@ enum Keep {
     Unix(UnixDatagram, std::path::PathBuf),
 }
 
+/// every sink implements Debug: formatting one (plain and pretty) is a public call like any other and must not panic
+fn dbg<T: std::fmt::Debug>(x: T) -> T {
+    std::hint::black_box(format!("{:?}", x).len() + format!("{:#?}", x).len());
+    x
+}
+
 fn make_sink(spec: &str, keep: &mut Vec<Keep>) -> DynSink {
     if let Some(rest) = spec.strip_prefix('q') {
         let (qc, inner) = rest.split_once(':').expect("queuing spec");
         let inner = Boxed(make_sink(inner, keep));
         return if qc == "u" {
-            Box::new(QueuingMetricSink::from(inner))
+            Box::new(dbg(QueuingMetricSink::from(inner)))
         } else {
-            Box::new(QueuingMetricSink::with_capacity(inner, qc.parse().unwrap()))
+            Box::new(dbg(QueuingMetricSink::with_capacity(inner, qc.parse().unwrap())))
         };
     }
     let (name, cap) = match spec.split_once(':') {
@@ -61,16 +67,16 @@ fn make_sink(spec: &str, keep: &mut Vec<Keep>) -> DynSink {
         None => (spec, None),
     };
     match name {
-        "nop" => Box::new(NopMetricSink),
+        "nop" => Box::new(dbg(NopMetricSink)),
         "spy" => {
             let (rx, s) = SpyMetricSink::new();
             keep.push(Keep::Spy(rx));
-            Box::new(s)
+            Box::new(dbg(s))
         }
         "bspy" => {
             let (rx, s) = BufferedSpyMetricSink::with_capacity(None, cap);
             keep.push(Keep::Spy(rx));
-            Box::new(s)
+            Box::new(dbg(s))
         }
         "udp" | "budp" => {
             let r = UdpSocket::bind("127.0.0.1:0").expect("bind");
@@ -80,11 +86,11 @@ fn make_sink(spec: &str, keep: &mut Vec<Keep>) -> DynSink {
             s.set_nonblocking(true).unwrap();
             keep.push(Keep::Udp(r));
             if name == "udp" {
-                Box::new(UdpMetricSink::from(addr, s).expect("sink"))
+                Box::new(dbg(UdpMetricSink::from(addr, s).expect("sink")))
             } else {
                 match cap {
-                    Some(c) => Box::new(BufferedUdpMetricSink::with_capacity(addr, s, c).expect("sink")),
-                    None => Box::new(BufferedUdpMetricSink::from(addr, s).expect("sink")),
+                    Some(c) => Box::new(dbg(BufferedUdpMetricSink::with_capacity(addr, s, c).expect("sink"))),
+                    None => Box::new(dbg(BufferedUdpMetricSink::from(addr, s).expect("sink"))),
                 }
             }
         }
@@ -98,11 +104,11 @@ fn make_sink(spec: &str, keep: &mut Vec<Keep>) -> DynSink {
             let s = UnixDatagram::unbound().expect("unbound");
             s.set_nonblocking(true).unwrap();
             let sink: DynSink = if name == "unix" {
-                Box::new(UnixMetricSink::from(&p, s))
+                Box::new(dbg(UnixMetricSink::from(&p, s)))
             } else {
                 match cap {
-                    Some(c) => Box::new(BufferedUnixMetricSink::with_capacity(&p, s, c)),
-                    None => Box::new(BufferedUnixMetricSink::from(&p, s)),
+                    Some(c) => Box::new(dbg(BufferedUnixMetricSink::with_capacity(&p, s, c))),
+                    None => Box::new(dbg(BufferedUnixMetricSink::from(&p, s))),
                 }
             };
             keep.push(Keep::Unix(r, p));
@@ -211,6 +217,10 @@ fn run_h(t: &[&str]) -> String {
         if i % 8 == 7 {
             drain(&keep);
         }
+    }
+    // Debug of the client (between the calls and the flush, i.e. with whatever is buffered or queued)
+    if catch(|| std::hint::black_box(format!("{:?}", client).len() + format!("{:#?}", client).len())).is_err() {
+        out.push("panic");
     }
     let fl = match catch(|| client.flush()) {
         Ok(Ok(())) => "ok",
